@@ -50,6 +50,8 @@ def make_traj(rng, n, exact):
         p[j:] += rng.normal(size=3) * (np.std(p) + 1) * 20
     R = gen.rotations_of_class(rng, n, ["smooth", "uniform", "identity", "mixed"][rng.integers(4)])
     t = gen.stamps_of_class(rng, n, ["epoch", "small", "irregular", "dyadic"][rng.integers(4)])
+    if rng.random() < .1:
+        t = t - (t[n // 2] + 0.25)  # time relative to an event in the middle of the recording
     if rng.random() < .15:
         # high-rate sensors: 200 Hz .. 4096 Hz sample grids (steps that are no whole nanoseconds)
         t = float(rng.integers(0, 1000)) + np.arange(n) / [200.0, 1000.0, 1024.0, 3000.0, 4096.0][rng.integers(5)]
@@ -82,6 +84,14 @@ def build(arr, rng, stamped=True):
     tr = gen.make_evo(arr, mode, stamped, flavour=fl)
     if rng.random() < .3:
         tr.poses_se3, tr.positions_xyz, tr.orientations_quat_wxyz
+    elif rng.random() < .45:
+        # only some representations were looked at before (a printed summary reads the positions,
+        # a plot of the angles the quaternions)
+        for attr in ("positions_xyz", "orientations_quat_wxyz", "poses_se3", "path_length"):
+            if rng.random() < .4:
+                getattr(tr, attr)
+        if rng.random() < .3:
+            str(tr)
     n = len(arr["p"])
 
     def touch():
